@@ -15,15 +15,15 @@ func init() {
 			"goalign phase -t N prints in channel-arrival order (property C11): the command-line outputs are matched by sequence name",
 			"absence of violations is established on the explored cases and schedules only",
 		},
-		LevelText: "Generated-input search against relations taken from the statement: ~1 500 (quick) to ~80 000 (thorough) phasing cases, each run under two or three worker counts, ~20 000 to ~400 000 ORF-search cases against a naive scan, ~300 to ~8 000 command executions, and a race-detector build of the error-free cases under four GOMAXPROCS values. Shows absence of violations on the inputs and schedules explored; interleavings are sampled, not enumerated.",
+		LevelText: "Generated-input search against relations taken from the statement: ~3 000 (quick) to ~64 000 (thorough) phasing cases, each run under two or three worker counts, ~40 000 to ~400 000 ORF-search cases against a naive scan, ~600 to ~6 000 command executions, and a race-detector build of the error-free cases under four GOMAXPROCS values. Shows absence of violations on the inputs and schedules explored; interleavings are sampled, not enumerated.",
 		LevelNote: "trusts the harness's transcription of NCBI tables 1, 2, 5, its naive ORF scanner and its minimal FASTA/log readers; schedules are whatever the Go runtime produced",
 		Technique: "property-based testing (rapid): validity relations (substring/frame/translation), metamorphic relation over worker counts, reference model for the ORF search; watchdog with re-run for termination; Go race detector; command-line differential",
 		DesignRef: "DESIGN.md section 5, C16; section 2.5 (process isolation)",
 		Runs: []runSpec{
-			{Name: "phase", Test: "^TestPhase$", Quick: 1500, Thorough: 5000, Shards: 16},
-			{Name: "orf", Test: "^TestLongestORF$", Quick: 20000, Thorough: 200000, Shards: 2},
-			{Name: "race", Test: "^TestPhaseRace$", Quick: 60, Thorough: 400, Race: true, GoMaxProcs: []int{4, 1, 2, 16}},
-			{Name: "cli", Test: "^TestCLI$", Quick: 300, Thorough: 2000, Shards: 4},
+			{Name: "phase", Test: "^TestPhase$", Quick: 3000, Thorough: 4000, Shards: 16},
+			{Name: "orf", Test: "^TestLongestORF$", Quick: 40000, Thorough: 200000, Shards: 2},
+			{Name: "race", Test: "^TestPhaseRace$", Quick: 200, Thorough: 600, Race: true, GoMaxProcs: []int{4, 1, 2, 16}},
+			{Name: "cli", Test: "^TestCLI$", Quick: 600, Thorough: 1500, Shards: 4},
 		},
 	})
 }
